@@ -33,6 +33,9 @@ def run(ck):
     limits_intact(ck, S, "C07-O8", "size")
     from rules.c09 import next_index, name_scheme
     next_index(ck, S, "C07-O4")
+    from rules.c19 import share_ini_obligation
+    share_ini_obligation(ck, "C07-O9", "ini|arg|RotatingFileSink", "configure(settings): max_file_size and max_file_count are handed to RotatingFileSink as read (a count of 0 = 'keep everything' turned into "
+                         "1 = 'never rotate' lets the active file collect every record)")
     from rules.c09 import index_feeds_name
     index_feeds_name(ck, S, "C07-O4")   # ... and that result, for the date of the name, is what the name gets (a refused rename leaves the active file growing)
     name_scheme(ck, S, "C07-O4")      # ... and the scan sees the names the writer produces
